@@ -4,7 +4,7 @@ CONSTANTS
   Leafs = {101}
   MaxLen = 2
   MaxScope = 1
-  MaxLevel = 6
+  MaxLevel = 5
   Mirror = FALSE
   Cache = "none"
   InitSet = "root"
